@@ -288,9 +288,8 @@ func (g *ovGrant) serve(e *env) {
 	g.t1 = time.Now()
 }
 
-// ovJudge records and judges the answer of one grant exactly as a sequential one.
-func (e *env) ovJudge(g *ovGrant, role string) (ok, issuedJWTOrID bool) {
-	e.record(g.kind+"_token("+role+")", g.req, g.shown, g.resp)
+// ovJudge judges the answer of one grant exactly as a sequential one.
+func (e *env) ovJudge(g *ovGrant) (ok, issuedJWTOrID bool) {
 	if e.aborted {
 		return false, false
 	}
@@ -367,11 +366,14 @@ func runOverlapCase(run *ev.Run, i, router int) {
 		b.serve(e)
 		od.Of = len(names)
 		setOverlap()
-		okA, _ := e.ovJudge(a, "a, alone")
+		// both literal requests / answers go into the trace before either is judged (complete witnesses)
+		e.record(a.kind+"_token(a, alone)", a.req, a.shown, a.resp)
+		e.record(b.kind+"_token(b, alone, after a)", b.req, b.shown, b.resp)
+		okA, _ := e.ovJudge(a)
 		if e.aborted {
 			return
 		}
-		okB, _ := e.ovJudge(b, "b, alone")
+		okB, _ := e.ovJudge(b)
 		after(l)
 		if !okA || !okB || e.aborted {
 			return // already wrong one after the other: the preemptions would only repeat it
@@ -394,11 +396,13 @@ func runOverlapCase(run *ev.Run, i, router int) {
 				run.Count("overlap", "b_served_completely_while_a_parked")
 				run.Count("overlap_parked_at", pointClass(res.At))
 			}
-			okA, tokA := e.ovJudge(a, fmt.Sprintf("a, parked at point %d %q while b was served", k, res.At))
+			e.record(fmt.Sprintf("%s_token(a, parked at its yield point %d %q while b was served)", a.kind, k, res.At), a.req, a.shown, a.resp)
+			e.record(b.kind+"_token(b, served completely while a was parked)", b.req, b.shown, b.resp)
+			okA, tokA := e.ovJudge(a)
 			if e.aborted {
 				return
 			}
-			okB, _ := e.ovJudge(b, "b, served while a was parked")
+			okB, _ := e.ovJudge(b)
 			after(l)
 			if e.aborted {
 				return
